@@ -251,6 +251,7 @@ class Occupations:
             # Do not leave the states array empty when no electrons are present
             if self.Nelec <= 0:
                 self._Nstate = 1
+                self._Nempty = 0
                 self._f = xp.zeros((self.Nk, self.Nspin, 1))
             # Always use the fractional fillings method if a magnetization is given
             elif isinstance(magnetization, numbers.Real):
@@ -297,6 +298,9 @@ class Occupations:
         if self.smearing == 0:
             self._Nstate = Nstate
             self._Nempty = self.bands - Nstate
+        # With smearing the extra bands are part of the states, do not keep a count from an earlier fill
+        else:
+            self._Nempty = 0
 
         # Simply build the occupations array
         self._f = f * xp.ones((self.Nspin, Nstate), dtype=int)
@@ -354,6 +358,9 @@ class Occupations:
         if self.smearing == 0:
             self._Nstate = Nstate
             self._Nempty = self.bands - Nstate
+        # With smearing the extra bands are part of the states, do not keep a count from an earlier fill
+        else:
+            self._Nempty = 0
 
         # Simply build the occupations array
         self._f = f * xp.ones((self.Nspin, Nstate))
